@@ -299,7 +299,9 @@ func (dec *xmlDecoder) decodeXML(root *xmlNode) error {
 				log.Debug("chardata [%v] for %v", elem.n.Data, elem.label)
 			}
 		case xml.EndElement:
-			if elem == nil {
+			if elem.parent == nil {
+				// an end element without a start element: keep the root as the
+				// current element, whatever follows still needs one
 				log.Debug("no element, probably bad xml")
 				continue
 			}
